@@ -18,6 +18,9 @@ limitations under the License.
 
 #include "analysermodel_p.h"
 #include "utilities.h"
+#ifdef LIBCELLML_VERIF
+#    include "verifhooks.h"
+#endif
 
 namespace libcellml {
 
@@ -414,6 +417,12 @@ bool AnalyserModel::areEquivalentVariables(const VariablePtr &variable1,
 
     auto key = ((v1 + v2) * (v1 + v2 + 1) >> 1U) + v2;
     auto cacheKey = mPimpl->mCachedEquivalentVariables.find(key);
+
+#ifdef LIBCELLML_VERIF
+    if (verif::equivalenceCacheObserver != nullptr) {
+        verif::equivalenceCacheObserver(this, v1, v2, key, cacheKey != mPimpl->mCachedEquivalentVariables.end(), mPimpl->mCachedEquivalentVariables.size());
+    }
+#endif
 
     if (cacheKey != mPimpl->mCachedEquivalentVariables.end()) {
         return cacheKey->second;
